@@ -964,8 +964,11 @@ impl ArrayData {
                 )));
             }
 
+            // The null buffer carries its own bit offset, which is not
+            // necessarily the offset of the value buffers (e.g. a BooleanArray
+            // whose values and validity were sliced differently)
             let actual_len = nulls.validity().len();
-            let needed_len = bit_util::ceil(len_plus_offset, 8);
+            let needed_len = bit_util::ceil(nulls.offset() + nulls.len(), 8);
             if actual_len < needed_len {
                 return Err(ArrowError::InvalidArgumentError(format!(
                     "null_bit_buffer size too small. got {actual_len} needed {needed_len}",
